@@ -558,6 +558,13 @@ def stage_conv(chk, bins, callset, depth, nbits, family=None):
 def check_C11(chk):
     bins = vlib.build_harness(["dbg-native"])
     stage_conv(chk, bins, "convert", 3, 8 if chk.thorough else 7, family="{63, 64, 65, 511, 512, 513}" if not chk.thorough else FAMILY_QUICK)
+    # conversions whose source is a multiset: the plain bitvector holds the distinct positions, counted once each
+    msp, rms = vlib.generate_cases(chk.work, "GenMS_conv", "GenMS", cfg_consts({"MaxU": 5 if chk.thorough else 4, "MaxVals": 5 if chk.thorough else 4}) + GEN_TAIL)
+    chk.add_tlc(rms, "GenMS multisets as conversion sources", {"behaviours": len(rms.replay_lines)})
+    st = "replay multiset cases: queries and conversion of the multiset into a plain bitvector (content, count, equality with the directly built vector)"
+    out = chk.run_harness(bins["dbg-native"], ["replay", "--kind", "ms", "--cases", msp], st)
+    if out:
+        chk.add_replay(out, st)
     chk.cov["exhaustive"] = True
     stage_trace(chk, bins, "conv", "TraceConv", seeds=2 if chk.thorough else 1)
     return chk.finish(rule="cases = (content, initial type and builder decomposition, conversion chain of length <= 3); after every conversion the "
